@@ -19,9 +19,12 @@ import SpsdkVerif.Proofs.SymWrappers
 import SpsdkVerif.Proofs.ExecLaws
 import SpsdkVerif.Proofs.Crc
 import SpsdkVerif.Crypto.Break
+import SpsdkVerif.Model.SymStream
+import SpsdkVerif.Proofs.SymStream
+import SpsdkVerif.Generated.CounterConsts
 
 namespace SpsdkVerif.C09
-open SpsdkVerif SpsdkVerif.Crypto SpsdkVerif.SymWrappers SpsdkVerif.Generated
+open SpsdkVerif SpsdkVerif.Crypto SpsdkVerif.SymWrappers SpsdkVerif.Generated SpsdkVerif.SymStream
 open SpsdkVerif.Misc (beEnc beDec leEnc leDec)
 
 variable {c : CryptoOps}
@@ -624,6 +627,180 @@ theorem aesCcmDecrypt_tamper (k n n' a a' m ct' x : Bytes) (t : Int)
       · rename_i hs; simp [hs]
       · cases hd
 
+
+/-! ## Part H (phase 3) — the incremental forms: streaming hash, CRC continuation and bursts, positioned AES-CTR -/
+
+/-- **streaming SHA = one-shot SHA, for ALL chunkings.**  `ShaObj` is the running state of `Hash(alg)` written out over
+    the Lean FIPS 180-4 reference (chaining value, < 1 block of buffer, byte count — the data itself is not kept);
+    any number of `update` calls with chunks of any size (empty ones included), then `finalize`, gives the digest of the
+    concatenation.  SHA-1, SHA-256, SHA-384, SHA-512. -/
+theorem sha_stream_eq_oneshot (a : HashAlg) (chunks : List Bytes) :
+    (chunks.foldl ShaObj.update (ShaObj.new a)).finalize = Sha.hash a chunks.flatten :=
+  shaObj_stream a chunks
+
+/-- the same with `update_int` calls mixed in: each contributes the minimal big-endian bytes of `abs(value)` -/
+theorem hash_calls_eq_oneshot (a : HashAlg) (calls : List HashCall) :
+    (calls.foldl ShaObj.call (ShaObj.new a)).finalize = getHash execOps a (calls.map HashCall.data).flatten := by
+  rw [foldl_call, shaObj_stream]; rfl
+
+/-- hence the state machine and the "remember everything" model of phase 2 agree on every call sequence -/
+theorem shaObj_refines_hashObj (a : HashAlg) (chunks : List Bytes) :
+    (chunks.foldl ShaObj.update (ShaObj.new a)).finalize =
+      (chunks.foldl HashObj.update (HashObj.new a)).finalize execOps := by
+  rw [sha_stream_eq_oneshot, hash_stream_eq_oneshot]; rfl
+
+/-- the buffer holds exactly the bytes after the last complete block — never a whole block -/
+theorem sha_stream_buffer (a : HashAlg) (chunks : List Bytes) :
+    (chunks.foldl ShaObj.update (ShaObj.new a)).buffered = chunks.flatten.length % a.blockSize ∧
+    (chunks.foldl ShaObj.update (ShaObj.new a)).buffered < a.blockSize := by
+  rw [shaObj_buffered]
+  exact ⟨rfl, Nat.mod_lt _ (by cases a <;> decide)⟩
+
+/-- the generic statement behind it: any Merkle–Damgård hash with a non-empty block -/
+theorem md_stream_eq_oneshot {σ : Type} (A : MdAlg σ) (hb : 0 < A.blk) (chunks : List Bytes) :
+    A.finalize (chunks.foldl A.update A.init) = A.oneShot chunks.flatten :=
+  A.stream_eq_oneShot hb chunks
+
+/-- incremental HMAC (the library object under `spsdk_hmac.hmac`: inner hash pre-fed with `K0 ⊕ ipad`, outer hash at
+    `finalize`) over the streaming SHA = RFC 2104 on the concatenation, every chunking, every key length -/
+theorem hmac_stream_eq_oneshot (a : HashAlg) (key : Bytes) (chunks : List Bytes) :
+    (chunks.foldl HmacObj.update (HmacObj.new a key)).finalize = hmacW execOps a key chunks.flatten :=
+  hmacObj_stream a key chunks
+
+/-- the CRC of the model is a left fold of the byte step over the message, starting from the initial register -/
+theorem crc_is_fold (name : String) (cfg : CrcTable.CrcConfig) (h : crcLookup name = some cfg) (d : Bytes) :
+    crcCalculate name d = .ok ((if cfg.reverse
+      then Crc.reflect (crcParams cfg).width (d.foldl (Crc.byteStep (crcParams cfg)) (crcParams cfg).init)
+      else d.foldl (Crc.byteStep (crcParams cfg)) (crcParams cfg).init) ^^^ cfg.finalXor) := by
+  simp only [crcCalculate, h]; rfl
+
+/-- `crcParams` (no bit reversal of the start register) is exact for every row of `CRC_ALGORITHMS` -/
+theorem crcParamsExact_table : ∀ e ∈ CrcTable.table, crcParamsExact e.2.2 = crcParams e.2.2 := by decide
+
+/-- **continuation** as the code offers it (`crc_obj.initial_value = crc_so_far; crc_obj.calculate(rest)`, used by the MBI
+    CRC mixin): resuming from the CRC of `a` over `b` is the CRC of `a ++ b` — all three algorithms (the reflected CRC-32
+    included), every split point -/
+theorem crc_resume (name : String) (cfg : CrcTable.CrcConfig) (h : crcLookup name = some cfg) (a b : Bytes) :
+    crcResume name (Crc.crc (crcParams cfg) a) b = crcCalculate name (a ++ b) := by
+  obtain ⟨e, he, rfl⟩ := crcLookup_mem h
+  obtain ⟨w8, hp, hi, _, _⟩ := crc_table_wf e he
+  have := CrcX.crc_resume (p := crcParams e.2.2) ⟨w8, hp⟩ hi a b
+  simp only [crcResume, crcCalculate, h]
+  rw [← this]
+  rfl
+
+/-- any number of pieces -/
+theorem crc_pieces (name : String) (cfg : CrcTable.CrcConfig) (h : crcLookup name = some cfg) (pieces : List Bytes) :
+    crcPieces name pieces = crcCalculate name pieces.flatten := by
+  cases pieces with
+  | nil => rfl
+  | cons p ps =>
+    simp only [crcPieces, List.flatten_cons]
+    induction ps generalizing p with
+    | nil => simp
+    | cons q qs ih =>
+      have e : crcCalculate name p = .ok (Crc.crc (crcParams cfg) p) := by simp [crcCalculate, h]
+      simp only [List.foldl_cons, e, crc_resume name cfg h p q]
+      have := ih (p ++ q)
+      simpa [List.append_assoc] using this
+
+/-- **burst detection at full strength**: for each algorithm of the table, two messages of equal length whose message
+    polynomials differ by `B·x^j`, `B ≠ 0`, `deg B < width` — i.e. every error pattern confined to a window of at most
+    `width` consecutive bits (16 resp. 32), at any bit offset, across byte boundaries; single-bit errors are `B = 1` —
+    never have the same CRC.  (For the reflected CRC-32 the window is in transmission order: `msgPoly` reverses each byte.) -/
+theorem crc_burst_width (name : String) (cfg : CrcTable.CrcConfig) (h : crcLookup name = some cfg)
+    (m m' : Bytes) (hl : m.length = m'.length) (B j : Nat) (hB0 : B ≠ 0) (hB : B < 2 ^ (crcParams cfg).width)
+    (hd : Crc.msgPoly (crcParams cfg) m ^^^ Crc.msgPoly (crcParams cfg) m' = B <<< j) :
+    crcCalculate name m ≠ crcCalculate name m' := by
+  obtain ⟨e, he, rfl⟩ := crcLookup_mem h
+  obtain ⟨w8, hp, hi, hodd, _⟩ := crc_table_wf e he
+  simp only [crcCalculate, h]
+  intro heq
+  exact CrcX.crc_detects_burst ⟨w8, hp⟩ hodd hi m m' hl B j hB0 hB hd (by injection heq)
+
+/-- for XMODEM and MPEG-2 (not reflected) in plain terms: the big-endian integers of the two messages differ by a
+    non-zero `B < 2^width` shifted to any position -/
+theorem crc_burst_width_plain (name : String) (cfg : CrcTable.CrcConfig) (h : crcLookup name = some cfg)
+    (hr : cfg.reverse = false) (m m' : Bytes) (hl : m.length = m'.length) (B j : Nat) (hB0 : B ≠ 0)
+    (hB : B < 2 ^ (crcParams cfg).width) (hd : beDec m ^^^ beDec m' = B <<< j) :
+    crcCalculate name m ≠ crcCalculate name m' := by
+  refine crc_burst_width name cfg h m m' hl B j hB0 hB ?_
+  rw [Crc.msgPoly_eq_beDec _ hr, Crc.msgPoly_eq_beDec _ hr]; exact hd
+
+/-- single-bit errors, every position, every message -/
+theorem crc_single_bit (name : String) (cfg : CrcTable.CrcConfig) (h : crcLookup name = some cfg)
+    (m m' : Bytes) (hl : m.length = m'.length) (j : Nat)
+    (hd : Crc.msgPoly (crcParams cfg) m ^^^ Crc.msgPoly (crcParams cfg) m' = 2 ^ j) :
+    crcCalculate name m ≠ crcCalculate name m' := by
+  obtain ⟨e, he, rfl⟩ := crcLookup_mem h
+  obtain ⟨w8, _, _, _, _⟩ := crc_table_wf e he
+  refine crc_burst_width name _ h m m' hl 1 j (by decide) (Nat.one_lt_two_pow (by omega)) ?_
+  rw [hd, Nat.shiftLeft_eq, Nat.one_mul]
+
+/-- **AES-CTR split at any block boundary**: `aes_ctr_encrypt(k, a ++ b, iv)` = `aes_ctr_encrypt(k, a, iv)` followed by
+    `aes_ctr_encrypt(k, b, iv advanced by len(a)/16 as a 128-bit big-endian integer)` — every block cipher with 16-byte
+    outputs, every key the wrapper accepts, every length of `b` -/
+theorem aesCtr_split (h : CryptoLaws c) (k iv a b : Bytes) (n : Nat) (hk : aesKeyOk k = true) (hiv : iv.length = 16)
+    (ha : a.length = 16 * n) :
+    aesCtr c k (a ++ b) iv = .ok (ctrXor c k iv a ++ ctrXor c k (ctrBlock iv n) b) ∧
+    aesCtr c k a iv = .ok (ctrXor c k iv a) ∧ aesCtr c k b (ctrBlock iv n) = .ok (ctrXor c k (ctrBlock iv n) b) := by
+  have hb : (ctrBlock iv n).length = 16 := by simp [ctrBlock, Crypto.beEnc_length]
+  refine ⟨?_, by simp [aesCtr, hk, hiv], by simp [aesCtr, hk, hb]⟩
+  simp only [aesCtr, hk, hiv, ctrXor, Bool.not_true, Bool.false_eq_true, if_false, ne_eq, not_true_eq_false]
+  rw [ctrXorWith_split (h.enc_len k) iv a b n ha]
+
+/-- **`Counter` positions the keystream**: the pattern `out += aes_ctr_encrypt(key, chunk, counter.value);
+    counter.increment(len(chunk) // 16)` over block-aligned chunks equals ONE call on the concatenation with the initial
+    counter value, for every chunking, as long as the 32-bit word (big-endian, the default) does not overflow -/
+theorem counter_positions_ctr (h : CryptoLaws c) (k : Bytes) (hk : aesKeyOk k = true) (chunks : List Bytes)
+    (cn : Counter) (hn : cn.nonce.length = 12) (hl : cn.little = false) (hal : ∀ ch ∈ chunks, ch.length % 16 = 0)
+    (hw : Counter.word cn + chunks.flatten.length / 16 < 4294967296) :
+    ctrChunks c k cn chunks = aesCtr c k chunks.flatten cn.value :=
+  ctrChunks_eq h k hk chunks cn hn hl hal hw
+
+/-- one `increment(n)` without overflow lands on block `n` of the 128-bit stream … -/
+theorem counter_lands_on_block (cn : Counter) (hn : cn.nonce.length = 12) (hl : cn.little = false) (n : Nat)
+    (hw : Counter.word cn + n < 4294967296) : (cn.increment (n : Int)).value = ctrBlock cn.value n :=
+  counter_block_be cn hn hl n hw
+
+/-- … and ACROSS the 32-bit wrap it does not: `Counter` keeps the nonce and wraps the word, the 128-bit counter of
+    AES-CTR carries into the nonce.  So "two calls = one call" is false exactly from the wrap on; the positions `Counter`
+    reaches there are those of `counter_value` (what the boot ROM's `uint32_t` counter does), not those of one long CTR call.
+    The full statement "for all block-aligned splits incl. the wrap, two calls = one call" is therefore NOT a theorem. -/
+theorem counter_wrap_diverges (cn : Counter) (hn : cn.nonce.length = 12) (hl : cn.little = false) (n : Nat)
+    (hn32 : n < 4294967296) (hw : 4294967296 ≤ Counter.word cn + n) :
+    (cn.increment (n : Int)).value ≠ ctrBlock cn.value n ∧
+    (cn.increment (n : Int)).value = cn.nonce ++ beEnc 4 (Counter.word cn + n - 4294967296) ∧
+    ctrBlock cn.value n = beEnc 12 (beDec cn.nonce + 1) ++ beEnc 4 (Counter.word cn + n - 4294967296) :=
+  SymStream.counter_wrap_diverges cn hn hl n hn32 hw
+
+
+/-- the constants of `Counter` regenerated from spsdk/crypto/symmetric.py on every run (required nonce length, nonce bytes
+    kept, counter word size, the mask in `.value`, default increment, default byte order) are the modelled ones -/
+theorem counter_consts :
+    CounterConsts.nonceLen = 16 ∧ CounterConsts.nonceKeep = 12 ∧ CounterConsts.wordBytes = 4 ∧
+    CounterConsts.wordMask = 4294967295 ∧ CounterConsts.defaultIncrement = 1 ∧ CounterConsts.defaultLittle = true := by decide
+
+/-- … and the model's `Counter` is built from exactly those: refused iff the nonce length differs from the source's,
+    `value` = kept nonce bytes ‖ the word reduced modulo `mask + 1`, of total length `nonceKeep + wordBytes` -/
+theorem counter_model_uses_source_consts (nonce : Bytes) (cv : Option Int) (l : Bool) :
+    (Counter.new nonce cv l = .error .spsdk ↔ (nonce.length : Int) ≠ CounterConsts.nonceLen) ∧
+    (∀ cn, Counter.new nonce cv l = .ok cn →
+      (cn.nonce.length : Int) = CounterConsts.nonceKeep ∧
+      (cn.value.length : Int) = CounterConsts.nonceKeep + CounterConsts.wordBytes ∧
+      cn.value = cn.nonce ++ enc32 l (cn.ctr % (CounterConsts.wordMask + 1)).toNat) := by
+  refine ⟨?_, ?_⟩
+  · rw [counter_new_refusal]; simp only [CounterConsts.nonceLen]; omega
+  · intro cn h
+    simp only [Counter.new] at h
+    split at h
+    · cases h
+    · rename_i hn
+      cases h
+      simp only [Counter.value, CounterConsts.nonceKeep, CounterConsts.wordBytes, CounterConsts.wordMask,
+        List.length_append, List.length_take, enc32_length]
+      refine ⟨by omega, by omega, rfl⟩
+
 /-! ## Part E — the laws are satisfiable: by the executable FIPS-197 AES / SM4 / SHA instance itself -/
 
 /-- `decBlk k (encBlk k b) = b` etc. for the AES, SM4 and SHA written out in Crypto/{Aes,Sm4,Sha}.lean -/
@@ -651,5 +828,21 @@ example : zeroPad16 [1, 2, 3] = [1, 2, 3] ++ zeros 13 ∧ zeroPad16 (zeros 16) =
 example : crcCalculate "CRC16_XMODEM" [0x31,0x32,0x33,0x34,0x35,0x36,0x37,0x38,0x39] = .ok 0x31C3 := by decide +kernel
 example : crcCalculate "CRC32" [0x31,0x32,0x33,0x34,0x35,0x36,0x37,0x38,0x39] = .ok 0xCBF43926 := by decide +kernel
 example : crcCalculate "CRC32_MPEG" [0x31,0x32,0x33,0x34,0x35,0x36,0x37,0x38,0x39] = .ok 0x0376E6E7 := by decide +kernel
+
+/-- phase 3 non-vacuity: a chunking with an empty chunk, a chunk crossing a block boundary and an `update_int` -/
+example : (([HashCall.bytes [], .bytes (zeros 70), .int 258, .bytes [7]].map HashCall.data).flatten).length = 73 := by decide
+example : (([[1, 2, 3], [], zeros 61, [9]].foldl alg256.update alg256.init).buf.length,
+           ([[1, 2, 3], [], zeros 61, [9]].foldl alg256.update alg256.init).total) = (1, 65) := by decide
+/-- burst hypotheses: a 9-bit error pattern straddling a byte boundary (XMODEM, 4-byte messages), and a single bit -/
+example : beDec [0, 0x12, 0x34, 0] ^^^ beDec [0, 0x0D, 0xC4, 0] = 0x1FF <<< 12 ∧ (0x1FF : Nat) ≠ 0 ∧
+    0x1FF < 2 ^ (crcParams ⟨0x11021, 0, 0, false⟩).width := by decide
+example : Crc.msgPoly (crcParams ⟨0x104C11DB7, 0, 0xFFFFFFFF, true⟩) [1, 2] ^^^
+    Crc.msgPoly (crcParams ⟨0x104C11DB7, 0, 0xFFFFFFFF, true⟩) [1, 3] = 2 ^ 7 := by decide
+/-- CRC continuation on the reflected CRC-32 really needs the exact (bit-reversing) start register -/
+example : crcResume "CRC32" 0x83DCEFB7 [0x32] = crcCalculate "CRC32" [0x31, 0x32] ∧
+    crcCalculate "CRC32" [0x31] = .ok 0x83DCEFB7 := by decide +kernel
+/-- Counter hypotheses: no-wrap and wrap cases exist -/
+example : Counter.word ⟨zeros 12, 4294967294, false⟩ + 1 < 4294967296 ∧
+    4294967296 ≤ Counter.word ⟨zeros 12, 4294967294, false⟩ + 2 := by decide
 
 end SpsdkVerif.C09
